@@ -346,7 +346,8 @@ func TestC07_Subsets(t *testing.T) {
 const c07Rule = "case = (group in {Ed25519, P-256, BN256 G1, BLS12-381 G1 (Kilic, CIRCL), QR-512, Edwards variable-time}, 1<=t<=n<=12 (thorough 24), coefficients from edge classes incl. zero secret / zero leading coefficient via CoefficientsToPriPoly or NewPriPoly(seeded), base nil or generated, " +
 	"a subset of any size presented in a random order with nil holes, duplicates and trailing nils); expected share values and secret from a math/big Horner evaluation; RecoverSecret/RecoverCommit/RecoverPriPoly/RecoverPubPoly must return the model values when >= t distinct shares are present and an error otherwise; " +
 	"PubPoly.Eval = commitment of PriPoly.Eval, Check accepts honest shares and rejects perturbed / mis-indexed ones (unless they happen to lie on the polynomial), (p+q)(x)=p(x)+q(x), (p*q)(x)=p(x)q(x), Commit(p)+Commit(q)=Commit(p+q); plus an exhaustive enumeration of all subsets for small n. " +
-	"non-trivial = the presented list is not the identity prefix 0..k-1, or t in {1,n}, or fewer than t shares; distinct = distinct rendered case"
+	"non-trivial = the presented list is not the identity prefix 0..k-1, or t in {1,n}, or fewer than t shares; distinct = distinct rendered case" +
+	" Added after the sensitivity rounds: value-less share objects in the lists; TestC07_SparseIndices (t<=24 shares at indices from spaces up to 4096: high block, random, extremes) and Eval/Check at the index extremes 0,1,2^31-1,2^31,2^32-2,2^32-1."
 
 func TestC07_Sharing(t *testing.T) {
 	ev := evFor("C07")
